@@ -37,7 +37,7 @@ def extract(score, part):
     notes = []
     for o in objs:
         rest = isinstance(o, score.Rest)
-        notes.append({"id": o.id, "step": "C" if rest else o.step, "alter": 0 if rest else (o.alter or 0),
+        notes.append({"id": o.id, "step": "C" if rest else o.step, "alter": 0 if rest else (getattr(o, "alter", None) or 0),
                       "octave": 0 if rest else o.octave, "on": o.start.t, "dur": o.end.t - o.start.t,
                       "next": index.get(id(o.tie_next), 0) if o.tie_next is not None else 0,
                       "prev": index.get(id(o.tie_prev), 0) if o.tie_prev is not None else 0,
